@@ -172,7 +172,9 @@ struct ChunkSink {
     short_n: usize,
     interrupt_at: i64,       // call index answered with ErrorKind::Interrupted once (-1 = never)
     zero_at: i64,            // call index from which on 0 bytes are accepted (-1 = never)
-    fail_at: i64,            // call index answered with a hard error (-1 = never)
+    fail_at: i64,            // call index from which on every call is answered with a hard error (-1 = never)
+    fail_once_at: i64,       // call index answered with a hard error once; later calls are served normally (-1 = never)
+    zero_once_at: i64,       // call index at which 0 bytes are accepted once (-1 = never)
     calls: Vec<(Vec<u8>, i64)>,
     delivered: Vec<u8>,
     interrupted_done: bool,
@@ -189,8 +191,13 @@ impl Write for ChunkSink {
             self.calls.push((buf.to_vec(), -2));
             return Err(std::io::Error::new(std::io::ErrorKind::Other, "sink failure"));
         }
+        if self.fail_once_at == i {
+            self.calls.push((buf.to_vec(), -2));
+            return Err(std::io::Error::new(std::io::ErrorKind::Other, "sink failure (once)"));
+        }
         let mut n = buf.len();
         if self.limit > 0 && n > self.limit { n = self.limit; }
+        if self.zero_once_at == i { n = 0; }
         if self.short_at == i && n > self.short_n { n = self.short_n; }
         if self.zero_at >= 0 && i >= self.zero_at { n = 0; }
         self.delivered.extend_from_slice(&buf[..n]);
@@ -212,6 +219,7 @@ fn do_sink(rec: &Value) -> Value {
     let mut sink = ChunkSink {
         limit: geti("limit", 0) as usize, short_at: geti("short_at", -1), short_n: geti("short_n", 1) as usize,
         interrupt_at: geti("interrupt_at", -1), zero_at: geti("zero_at", -1), fail_at: geti("fail_at", -1),
+        fail_once_at: geti("fail_once_at", -1), zero_once_at: geti("zero_once_at", -1),
         calls: Vec::new(), delivered: Vec::new(), interrupted_done: false,
     };
     let r = guard(|| program.serialize(&mut sink));
